@@ -148,6 +148,14 @@ def harness(S, spec):
         S.assume(marker[g] is not None or cache != g)
     if spec['active'] and run != 'none':
         S.assume(cache == 'g' + run[1] or spec['step'] in ('deleted',))
+    #  - a "created" event is the first sighting of that generation of the
+    #    cache entry: no container of it can exist yet; the generation made by
+    #    "recreated" does not exist beforehand either.
+    if spec['step'] == 'created' and cache != 'none':
+        S.assume(not present[cache])
+    if spec['step'] == 'recreated':
+        S.assume(not present['g2'])
+    S.notes['cname'] = dict(cname)
     S.notes['pre'] = {'cache': cache, 'running': run,
                       'present': dict(present), 'marker': dict(marker)}
     # a running link never points at a finished container in the pre-state
@@ -318,9 +326,20 @@ def _known_sync_other_generation(S, label):
     """_synchronize keys running/ by instance name while it walks containers:
     the container of another generation of the same instance makes it move
     the current generation's running link to cleanup."""
-    if label != 'C13:unchanged_running_container_disturbed':
+    if not _two_generations(S):
         return False
-    return bool(_two_generations(S))
+    if label == 'C13:unchanged_running_container_disturbed':
+        return True
+    if label == 'C13:container_without_cache_entry_not_in_cleanup':
+        # same event seen from the other container: the sync spent its visit
+        # of the uncached container on terminating running/<instance> (a
+        # cleanup link named after the *cached* generation's container shows
+        # it) and left the uncached container itself without a link
+        running, cleanup = _links_at_failure(S)
+        cur = (S.notes.get('cname') or {}).get(
+            (S.notes.get('pre') or {}).get('cache'))
+        return cleanup is not None and cur is not None and cur in cleanup
+    return False
 
 
 def _known_sync_pops_cache_entry(S, label):
